@@ -51,7 +51,8 @@ def py_default(d):
 
 
 def exposes(cell, ir):
-    fmt, style = cell
+    fmt, style = cell[0], cell[1]
+    edd = bool(cell[2]) if len(cell) > 2 else False  # emit_default_doc: "Defaults to ..." written into the docstring
     ns = {}
     exec("from typing import *\nimport argparse\nfrom argparse import ArgumentParser\n", ns)
     out = []
@@ -62,7 +63,7 @@ def exposes(cell, ir):
     if fmt == "class":
         import cdd.class_.emit
 
-        node = cdd.class_.emit.class_(json.loads(json.dumps(ir)) and ir, class_name="Conf", docstring_format=style)
+        node = cdd.class_.emit.class_(json.loads(json.dumps(ir)) and ir, class_name="Conf", docstring_format=style, emit_default_doc=edd)
         text = R.to_src(node)
         code = compile(text, "<emitted>", "exec")
         exec(code, ns)
@@ -79,7 +80,7 @@ def exposes(cell, ir):
     elif fmt == "function":
         import cdd.function.emit
 
-        node = cdd.function.emit.function(ir, function_name="conf", function_type="static", docstring_format=style, emit_as_kwonlyargs=False)
+        node = cdd.function.emit.function(ir, function_name="conf", function_type="static", docstring_format=style, emit_as_kwonlyargs=False, emit_default_doc=edd)
         text = R.to_src(node)
         exec(compile(text, "<emitted>", "exec"), ns)
         sig = inspect.signature(ns["conf"])
@@ -97,7 +98,7 @@ def exposes(cell, ir):
     else:
         import cdd.argparse_function.emit
 
-        node = cdd.argparse_function.emit.argparse_function(ir, docstring_format=style)
+        node = cdd.argparse_function.emit.argparse_function(ir, docstring_format=style, emit_default_doc=edd)
         text = R.to_src(node)
         exec(compile(text, "<emitted>", "exec"), ns)
         parser = argparse.ArgumentParser(prog="x")
@@ -143,8 +144,13 @@ def exposes(cell, ir):
 def main(tier, write_baseline=False):
     run = Run("C04", tier, "other", checker_cmd=common.checker_cmd("C04", tier))
     M.RAISE_CTX.update(prop="C04", write=bool(write_baseline))
-    run.trusted_base.update(["rule engine of checks/C04.py (shape contracts of the three emitters)", "CPython, inspect.signature and argparse as the oracle of the bounded part"])
+    run.trusted_base.update(["rule engine of checks/C04.py (shape contracts of the three emitters)", "cddvc E1 (record with presence bits) for the frame lemma on set_default_doc", "CPython, inspect.signature and argparse as the oracle of the bounded part"])
     refuted = []
+    # frame lemma the class / pydantic emitters rely on: they hand their own param dicts to set_default_doc BEFORE emitting the
+    # values, so it must write nothing but the description (contract of contracts/C08.py, verified here under C04 as well)
+    from cddvc import e1
+
+    e1_refuted = e1.run_contracts(run, "contracts.C08")
     for name, ok, detail in shape_obligations():
         st = UNDECIDED if ok is None else (PROVED if ok else REFUTED)
         run.add("C04/shape/" + name, st, "rule-engine", detail=detail)
@@ -178,11 +184,11 @@ def main(tier, write_baseline=False):
         pool = domain.param_pool(TYPES, docs=["the {name}", "The {name} of it."])
         irs = list(domain.irs(1, pool, suffix_defaults=True)) + list(domain.irs(3 if tier == "thorough" else 2, pool, sample=150 if tier == "quick" else 1500, seed=run.seed, suffix_defaults=True))
         undocumented = [domain.make_ir(c, doc="") for c in [(("int", 1, None),), (), (("str", domain.ABSENT, None), ("int", 2, None))]]
-        cells = [(f, s) for f in ("class", "function", "argparse") for s in ("rest", "google", "numpydoc")]
+        cells = [(f, s, e) for f in ("class", "function", "argparse") for s in ("rest", "google", "numpydoc") for e in (False, True)]
         n, raised, fails = M.run(cells, irs + undocumented, exposes)
         run.bounded.append({
             "name": "execution of the emitted source in a real interpreter, compared with the description (BOUNDED; this is the only place the property is decided)",
-            "bound": "%d interface descriptions (executable slice: %d shapes incl. Literal of ints, n <= 1 exhaustive, n <= %d sampled, 3 undocumented ones) x {class, function, argparse} x 3 styles; %d evaluations raised (e.g. the emitted text does not compile)" % (len(irs) + 3, len(pool), 3 if tier == "thorough" else 2, raised),
+            "bound": "%d interface descriptions (executable slice: %d shapes incl. Literal of ints, n <= 1 exhaustive, n <= %d sampled, 3 undocumented ones) x {class, function, argparse} x 3 styles x emit_default_doc on/off; %d evaluations raised (e.g. the emitted text does not compile)" % (len(irs) + 3, len(pool), 3 if tier == "thorough" else 2, raised),
             "rule": "one evaluation = emit + compile + exec + introspection of one (interface, emitter, style)",
             "evaluations": n, "distinct_nontrivial": n - raised, "raised": raised,
             "failures": [{"class": "|".join(map(str, k)), "what": v[2][:300]} for k, v in list(fails.items())[:6]],
@@ -194,6 +200,15 @@ def main(tier, write_baseline=False):
                 fails.setdefault(("does-not-compile", c[0], c[1], "documented" if ir["doc"] or any(p.get("doc") for p in ir["params"].values()) else "undocumented", str(len(ir["params"]))), (c, ir, r))
     for name, detail in refuted:
         run.violation(name, detail, failing_input=shape_inputs.get(name), solver_output={"rule": detail})
+    seen_ = set()
+    for o in e1_refuted:
+        if o["name"] in seen_:
+            continue
+        seen_.add(o["name"])
+        cand = next(((c_, ir_, w_) for k_, (c_, ir_, w_) in fails.items() if k_[0] == "default"), None)
+        run.violation(o["name"], "obligation refuted by %s on path %s" % (o["backend"], " ".join(o["trace"])),
+                      failing_input=({"cell": list(cand[0]), "ir": json.loads(json.dumps(cand[1], default=str)), "what": cand[2][:300]} if cand else None),
+                      solver_output={"model": o["model"], "smt2": (o["smt2"] or "")[:3000]})
     M.report(run, "C04/bounded", fails)
     M.flush_raise_baseline()
     common.apply_controls(run, tier)
@@ -202,7 +217,8 @@ def main(tier, write_baseline=False):
 
 
 def compiles(args):
-    (fmt, style), ir = args
+    cell_, ir = args
+    fmt, style = cell_[0], cell_[1]
     try:
         import cdd.argparse_function.emit
         import cdd.class_.emit
